@@ -220,6 +220,9 @@ func genTopo(e *emitter, r *rng.R, n int, tier string) {
 		"H:3 s:app p -2 w p + w p",
 		"H:2 s:missing p -1 w p",
 		"H:2 p x w p + w p x w p",
+		"H:2 p + x w p + w p",          // the control connection is lost while a refresh is pending
+		"H:3 p -1 x w p + w p -2 w p",
+		"H:2 p + + x w p -1 w p + w p",
 	}
 	defer func() { e.emitAll(ops, 8) }()
 	for i := 0; i < n; i++ {
@@ -230,10 +233,18 @@ func genTopo(e *emitter, r *rng.R, n int, tier string) {
 		for j := 0; j < 2+rr.Intn(6); j++ {
 			switch c := rr.Intn(10); {
 			case c < 3 && total < 5:
-				parts = append(parts, "+", "w", "p")
 				total++
+				if rr.Intn(3) == 0 { // a change announced, and the control connection lost inside the refresh window
+					parts = append(parts, "+", "x", "w", "p")
+				} else {
+					parts = append(parts, "+", "w", "p")
+				}
 			case c < 5 && total > 1:
-				parts = append(parts, fmt.Sprintf("-%d", 1+rr.Intn(total-1)), "w", "p")
+				if rr.Intn(3) == 0 {
+					parts = append(parts, fmt.Sprintf("-%d", 1+rr.Intn(total-1)), "x", "w", "p")
+				} else {
+					parts = append(parts, fmt.Sprintf("-%d", 1+rr.Intn(total-1)), "w", "p")
+				}
 			case c < 6:
 				parts = append(parts, "s:"+rr.Pick([]string{"app", "missing", "other", "missing2"}))
 			case c < 8:
